@@ -96,7 +96,7 @@ def mutators(msg, kind, info, rng, nbits):
     elif kind == "share":
         out += bits(n // 3, n, 3) if msg in ("CH1", "CH2", "SH") else bits(1, n, 3)
     elif kind == "sig":
-        out += bits(n - 24, n, 3)
+        out += bits(n - 24, n, 3) + ([] if frag else ["sig-malleate"])
     else:
         out += ["bit:0", "bit:%d" % (8 * n - 1)] + bits(0, n, nbits)
         if not frag and msg in ("CH1", "CH2"):
